@@ -46,6 +46,8 @@ def holders_case(draw, broker):
             ops.append({"op": "finish", "c": draw(idx)})
         elif r < 17:
             ops.append({"op": "advance", "dt": draw(st.sampled_from([0.01, 0.1, 0.5, 1.0, 3.0, 5.0]))})
+            if draw(st.integers(0, 2)) == 0:
+                ops.append({"op": draw(st.sampled_from(["pause", "unpause"])), "c": draw(idx)})
         elif r < 18 and broker != "mem":
             ops.append({"op": "kill", "c": draw(idx)})
         elif r < 19 and broker == "redis":
